@@ -154,6 +154,10 @@ func groupObligations(vs []Verdict) map[string]*Obligation {
 			key = m[1] + "/safe-all:" + m[2]
 		} else if m := waitSiteRe.FindStringSubmatch(name); m != nil {
 			key = m[1] + "/cancellable-all:" + m[2]
+		} else if m := siteFamilyRe.FindStringSubmatch(name); m != nil {
+			// obligations generated per code site (release, call, acquisition) carry the site's ordinal: a new site
+			// gets a name the baseline does not know. The family aggregate F/…#*… fails when any site has a countermodel.
+			key = m[1] + "/" + m[2] + "*" + m[4]
 		} else if m := neverLocksRe.FindStringSubmatch(name); m != nil {
 			key = m[1] + "/never-locks:" + m[2]
 		} else if m := disciplineRe.FindStringSubmatch(name); m != nil {
@@ -205,6 +209,7 @@ func groupObligations(vs []Verdict) map[string]*Obligation {
 var safeSiteRe = regexp.MustCompile(`^(.*)/safe:([^#]+)#\d+$`)
 var disciplineRe = regexp.MustCompile(`^(.*)/(lockset|own|own-write|alias|alias-in):.+$`)
 var neverLocksRe = regexp.MustCompile(`^(.*)/never-locks:([^@]+)@acq#\d+$`)
+var siteFamilyRe = regexp.MustCompile(`^(.*)/((inv@[^#]*|requires@[^#]*|order|bcast-after-change|bcast-locked|notify-when:[^#]*)#)\d+(.*)$`)
 var waitSiteRe = regexp.MustCompile(`^(.*)/cancellable:([^@]+)@wait#\d+$`)
 
 // ---------------------------------------------------------------------------------------------
@@ -321,6 +326,9 @@ func isAutoObligation(name string) bool {
 			return true
 		}
 	}
+	if strings.Contains(k, "#*") {
+		return true
+	}
 	return strings.HasSuffix(name, "/lockset-stable")
 }
 
@@ -330,6 +338,7 @@ type Baseline struct {
 	Symbols    map[string][]Sym           `json:"symbols,omitempty"`  // variables of the functions under contract (rename tolerance)
 	Closures   map[string][]ClosureSig    `json:"closures,omitempty"` // ordered function literals per parent (renumbering tolerance)
 	Covers     map[string][]string        `json:"covers,omitempty"`   // return sites that were reachable when the baseline was taken
+	Failing    map[string][]string        `json:"failing_families,omitempty"` // families (site ordinals and field names abstracted) with an undischarged member on the unchanged tree
 }
 
 func baselinePath() string { return filepath.Join(verifDir, "baseline", "obligations.json") }
@@ -470,6 +479,7 @@ func cmdBaseline(args []string) int {
 	for _, p := range props {
 		pr := e.runProperty(p, tmp, time.Duration(*to)*time.Second)
 		var entries []BaselineEntry
+		failingFam := map[string]bool{}
 		fail := 0
 		for _, o := range pr.Obs {
 			if strings.Contains(o.Name, "/cover:") {
@@ -490,8 +500,18 @@ func cmdBaseline(args []string) int {
 			} else {
 				fail++
 				fmt.Printf("  [%s] not admitted (undischarged on the unchanged tree): %s\n", p, o.Name)
+				failingFam[familyKey(o.Name)] = true
 			}
 		}
+		var ff []string
+		for k := range failingFam {
+			ff = append(ff, k)
+		}
+		sort.Strings(ff)
+		if old.Failing == nil {
+			old.Failing = map[string][]string{}
+		}
+		old.Failing[p] = ff
 		sort.Slice(entries, func(i, j int) bool { return entries[i].Name < entries[j].Name })
 		old.Properties[p] = entries
 		var cov []string
@@ -517,6 +537,36 @@ func cmdBaseline(args []string) int {
 	data, _ := json.MarshalIndent(old, "", " ")
 	os.WriteFile(baselinePath(), data, 0o644)
 	return 0
+}
+
+var ordRe = regexp.MustCompile(`#\d+`)
+var fieldFamRe = regexp.MustCompile(`/(lockset|own|own-write|alias|alias-in):.+$`)
+
+// familyKey abstracts what shifts or appears when code sites are added: site ordinals and, for the access-discipline
+// obligations, the field name.
+func familyKey(name string) string {
+	s := ordRe.ReplaceAllString(name, "#*")
+	if m := fieldFamRe.FindStringSubmatch(s); m != nil {
+		s = fieldFamRe.ReplaceAllString(s, "/"+m[1]+":*")
+	}
+	return s
+}
+
+// isSiteObligation: generated from a code site (not addressed by a contract clause naming that site): a new site of the
+// same kind yields a new obligation of the same family.
+func isSiteObligation(name string) bool {
+	i := strings.LastIndex(name, "/")
+	if i < 0 {
+		return false
+	}
+	k := name[i+1:]
+	if strings.HasPrefix(k, "at-call@") || strings.HasPrefix(k, "after-call@") || strings.HasPrefix(k, "cover:") || strings.HasPrefix(k, "loop") {
+		return false
+	}
+	if isAutoObligation(name) {
+		return true
+	}
+	return siteFamilyRe.MatchString(name) || waitSiteRe.MatchString(name) || neverLocksRe.MatchString(name)
 }
 
 func allProps() []string {
@@ -640,6 +690,35 @@ func cmdCheck(args []string) int {
 		}
 	}
 	sort.Strings(pr.NotAdmittedFailing)
+	// a proof obligation that did not exist when the baseline was taken (a new code site: release, call, access,
+	// wait, …) and has a countermodel is a violation, unless its family already had an undischarged member on the
+	// unchanged tree (then a shifted ordinal cannot be told from a new site). Undecided new obligations never alarm.
+	failingFam := map[string]bool{}
+	for _, f := range base.Failing[*prop] {
+		failingFam[f] = true
+	}
+	if _, recorded := base.Failing[*prop]; recorded {
+		var names []string
+		for n := range pr.Obs {
+			names = append(names, n)
+		}
+		sort.Strings(names)
+		for _, n := range names {
+			o := pr.Obs[n]
+			if inBase[n] || o.OK || !isSiteObligation(n) || failingFam[familyKey(n)] || e.funcs[o.Func] == nil {
+				continue
+			}
+			sat := false
+			for _, v := range o.Verdicts {
+				if v.Result == "sat" {
+					sat = true
+				}
+			}
+			if sat {
+				viols = append(viols, viol{n, "new proof obligation (its code site did not exist when the baseline was taken) has a counterexample", o})
+			}
+		}
+	}
 	exit := 0
 	nviol := 0
 	os.MkdirAll(filepath.Join(outDir, "replays", *prop), 0o755)
